@@ -85,6 +85,7 @@ def shards(tier, seed):
     out.append(("log",))
     out.append(("mode-switch",))
     out.append(("redefine",))
+    out.append(("failed-inplace",))
     return out
 
 
@@ -473,6 +474,46 @@ def run_mode_switch(acc):
     acc.sample({"clause": "mode-switch", "history": ["built with autoconvert=True", "observe; set autoconvert=False"], "probe": "dBm/Hz->mW/Hz", "expected": "DimensionalityError"})
 
 
+# ----------------------------------------------------------------------------- a refused in-place conversion changes nothing
+
+
+def run_failed_inplace(acc):
+    """'raises instead of producing a number' — and without having touched the data: an in-place conversion (ito,
+    convert(inplace=True), an in-place operator) of an ndarray in an offset or logarithmic unit to a target it cannot be
+    converted to raises AND leaves array, unit and every other holder of the array as they were"""
+    import numpy as np
+
+    for mode in ("default", "autoconvert"):
+        ureg = regs.default("float", fresh=True, autoconvert_offset_to_baseunit=(mode == "autoconvert"))
+        Q = ureg.Quantity
+        sources = ["degC", "degF", "degRe", "dBm", "dBW", "decibel", "octave", "neper", "delta_degC", "kelvin"]
+        targets = ["meter", "second", "degC/meter", "watt/hertz", "delta_degF/second", "dimensionless", "kilogram"]
+        for src in sources:
+            for dst in targets:
+                vals = np.array([10.0, 20.0, 30.0])
+                for api in ("ito", "convert(inplace=True)", "m_as", "to"):
+                    arr = vals.copy()
+                    view = arr[:]  # another holder of the same buffer
+                    q = Q(arr, src)
+                    acc.ev()
+                    acc.nt(("failed-inplace", mode, src, dst, api))
+                    if api == "ito":
+                        o = call(lambda: q.ito(dst))
+                    elif api == "convert(inplace=True)":
+                        o = call(lambda: ureg.convert(arr, src, dst, inplace=True))
+                    elif api == "m_as":
+                        o = call(lambda: q.m_as(dst))
+                    else:
+                        o = call(lambda: q.to(dst))
+                    if o[0] == "ok":
+                        continue  # convertible after all (e.g. decibel -> dimensionless): judged elsewhere
+                    case = {"mode": mode, "source": src, "target": dst, "api": api, "values": vals.tolist(), "error": o[1]}
+                    if not np.array_equal(view, vals) or not np.array_equal(np.asarray(q.magnitude), vals) or str(q.units) != str(Q(1.0, src).units):
+                        acc.violation(["failed-conversion", api, "LOG" if src in LOGS or src.startswith("dB") or src in ("decibel", "octave", "neper") else "OFF", "data-modified-although-the-conversion-was-refused", mode], case, vals.tolist(), [np.asarray(view).tolist(), str(q.units)])
+    acc.outcome("failed-inplace")
+    acc.sample({"clause": "failed-conversion", "source": "degC", "target": "meter", "api": "ito", "expected": "DimensionalityError, array still [10, 20, 30] degC"})
+
+
 # ----------------------------------------------------------------------------- redefining an offset unit
 
 
@@ -692,6 +733,8 @@ def run_shard(acc, shard, tier, seed):
         run_mode_switch(acc)
     elif k == "redefine":
         run_redefine(acc)
+    elif k == "failed-inplace":
+        run_failed_inplace(acc)
     else:
         raise core.HarnessError(str(shard))
 
@@ -717,6 +760,8 @@ def replay(rec):
         run_mode_switch(acc)
     elif site[0] == "redefinition":
         run_redefine(acc)
+    elif site[0] == "failed-conversion":
+        run_failed_inplace(acc)
     sites = {tuple(v["site"]) for v in acc.violations}
     return tuple(site) in sites, {"sites_seen": sorted(sites)[:20]}
 
